@@ -1,6 +1,10 @@
 """C44 - each workload interface carries exactly the state of its preferred endpoint
 (felix/dataplane/linux/endpoint_mgr.go: resolveWorkloadEndpoints / wlIdsAscending)."""
+import json
+import os
+
 from checks import mgr_common
+from vlib import core
 
 PKG = "felix/dataplane/linux"
 
@@ -85,16 +89,48 @@ LABEL_PRIORITY = ["winner-removed+shadowed-op", "stale-shadow-copy", "winner-ren
 
 
 def signature(t_id, evs, kind, off):
-    """root-cause:<label> when the last batch contains one of the documented situations (the first in
-    LABEL_PRIORITY); latent:<label> when only an earlier batch did (its observation was still right, the
-    manager's hidden maps may already have been wrong); else unclassified:<kind of mismatch>."""
-    now, earlier = root_cause_labels(evs, off)
+    """root-cause:<label> when the batch before the refused observation contains one of the documented
+    situations (the first in LABEL_PRIORITY); else unclassified:<kind of mismatch>."""
+    now, _ = root_cause_labels(evs, off)
     for l in LABEL_PRIORITY:
         if l in now:
             return "root-cause:" + l
-    if earlier:
-        return "latent:after-known-root-cause"
     return "unclassified:" + kind.rstrip("+")
+
+
+def known_labels(pid="C44"):
+    """the root-cause situations that are listed in known_findings.json (none once the code is repaired)"""
+    return {l for l in LABEL_PRIORITY if core.known_match(pid, "root-cause:" + l)}
+
+
+def truncate_at_known(traces, labels, stats):
+    """A batch containing a situation that is a KNOWN finding may leave the manager's hidden maps wrong even
+    when its own observation is still right, so nothing after it can be judged: every trace is cut after the
+    first CompleteDeferredWork whose batch contains such a situation (that observation itself is still judged
+    and, if refused, reported under the known finding).  Without known findings nothing is cut."""
+    if not labels:
+        return traces
+    out = []
+    for t, lines in traces:
+        evs = [json.loads(x) for x in lines]
+        cut = None
+        for i, e in enumerate(evs):
+            if e["ev"] == "flush" and set(root_cause_labels(evs, i)[0]) & labels:
+                cut = i + 1
+                break
+        if cut is not None and cut < len(lines):
+            stats["truncated"] = stats.get("truncated", 0) + 1
+            stats["events_not_judged"] = stats.get("events_not_judged", 0) + len(lines) - cut
+            lines = lines[:cut]
+        out.append((t, lines))
+    return out
+
+
+def tree_is_repaired():
+    try:
+        return "promoteShadowed" in open(os.path.join(core.REPO, PKG, "endpoint_mgr.go")).read()
+    except OSError:
+        return False
 
 
 def nontrivial(evs):
@@ -123,14 +159,14 @@ P = {
                 "workers": 4, "timeout": 300, "thorough_timeout": 1500}],
     "gens": [
         {"module": "Gen_EpMgr", "cfg": "Gen_words3.cfg", "thorough_cfg": "Gen_words4.cfg", "workers": 2,
-         "max": 1200, "thorough_max": 40000, "timeout": 300, "thorough_timeout": 1500},
+         "max": 1200, "thorough_max": 30000, "timeout": 300, "thorough_timeout": 1500},
         {"module": "Gen_EpMgr", "cfg": "Gen_sim.cfg", "simulate": {"num": 150, "depth": 20},
-         "thorough_simulate": {"num": 4000, "depth": 20}, "timeout": 300, "thorough_timeout": 900},
+         "thorough_simulate": {"num": 2000, "depth": 20}, "timeout": 300, "thorough_timeout": 900},
     ],
     "driver": {"overlay_pkg": PKG, "run": "^TestVerifMgrEpMgr$", "env": {"VERIF_REPS": "8"}},
     "rerun_env": {"VERIF_REPS": "24"},
     "rerun_envs": [{"VERIF_REPS": "24"}, {"VERIF_REPS": "400"}, {"VERIF_REPS": "2000"}],
-    "n_random": (300, 5000),
+    "n_random": (300, 3000),
     "trace": {"module": "T_EpMgr", "cfg": "T_EpMgr.cfg", "heap": "4g"},
     "chunk": 60000,
     "multi_reject": True,
@@ -152,7 +188,19 @@ P = {
 
 
 def run(ctx):
-    mgr_common.run_legs(ctx, P)
+    P2 = dict(P)
+    # the implementation-shaped model that matches the tree: the algorithm as found satisfies F only when no
+    # endpoint changes its interface name and no batch races a removal with a co-claimant's own operation;
+    # the repaired algorithm (hooks/fix-C44-shadowing.patch) satisfies it in every environment
+    if tree_is_repaired():
+        P2["design"] = [dict(P["design"][0], cfg="MC_I_EpMgr_fixed_quick.cfg", thorough_cfg="MC_I_EpMgr_fixed_full.cfg")]
+    ctx.notes["implementation_model"] = "repaired (unrestricted environment)" if tree_is_repaired() else "as found (no renames, no batch races)"
+    labels = known_labels(ctx.id)
+    if labels:
+        st = {}
+        P2["preprocess"] = lambda traces: truncate_at_known(traces, labels, st)
+        ctx.notes["known_root_causes_cut"] = st
+    mgr_common.run_legs(ctx, P2)
 
 
 def selftest(ctx):
